@@ -318,6 +318,9 @@ fn c08(tier: &str) -> i32 {
         }
     }
     run_e1(jobs, &|cx, rep, _| props_e1::check_c08(cx, rep), &mut rep);
+    // routing between two groups of one member when an id given up by one group is taken by the other
+    c04::two_group_routing(&mut rep, lab::Bk::Memory);
+    c04::two_group_routing(&mut rep, lab::Bk::Sqlite);
     rep.finish()
 }
 
